@@ -6,6 +6,7 @@ import CoapVerif.Model.Oscore
 import CoapVerif.Model.OscoreAssoc
 import CoapVerif.Model.OscoreCtx
 import CoapVerif.Model.OscoreSrv
+import CoapVerif.Model.OscoreDispatch
 import CoapVerif.Driver.Codec
 /- Line-protocol driver for the OSCORE property C14: S's protected bytes / verdicts for the same
    inputs the C harness gets (harness/oscore.c), and M's helper outputs. -/
@@ -16,6 +17,8 @@ import CoapVerif.Driver.Codec
 -- DRIVER-OPS: findctx => Coap.Driver.Oscore.findctxStep
 -- DRIVER-OPS: oinj => Coap.Driver.Oscore.oinjStep
 -- DRIVER-OPS: oscx => Coap.Driver.Oscore.oscxStep
+-- DRIVER-OPS: olen => Coap.Driver.Oscore.olenStep
+-- DRIVER-OPS: odisp => Coap.Driver.Oscore.odispStep
 -- DRIVER-OPS: oend => Coap.Driver.Oscore.oendStep
 -- DRIVER-OPS: optenc => Coap.Driver.Oscore.optencStep
 -- DRIVER-OPS: optdec => Coap.Driver.Oscore.optdecStep
@@ -407,6 +410,94 @@ def oinjStep (w : List String) : String :=
           let mopts := M.Oscore.decryptMerge isReq pivObs opts' (innerOpts isReq orig.opts)
           "M opts=" ++ Coap.Driver.showOpts mopts ++ " | S dg=" ++ hexOrDash dg ++ " u=" ++ showDelivery (deliver c bind dg)
     | _, _, _, _ => "bad-input"
+  | _, _, _ => "bad-op"
+
+/-! ### `olen`: the value of the OSCORE option made longer on the path (S: §2 — the option is 0..255 bytes long, `optDecode`;
+libcoap: `coap_pdu_parse()` refuses an OSCORE option of more than 255 bytes, so `coap_oscore_decrypt_pdu`'s `uint8_t osc_size`
+never sees one) -/
+
+/-- `olen <C: 5> <S: 5> <cseq> <sseq> <newmid|-1> <req> <resp|-> <piv 0|1> <q|r> <extra> <fill>` -/
+def olenStep (w : List String) : String :=
+  match paramsOf (w.take 5), paramsOf ((w.drop 5).take 5), w.drop 10 with
+  | some pc, some ps, [cseq, sseq, newmid, req, resp, f, which, extra, fill] =>
+    match cseq.toNat?, sseq.toNat?, (bytesOfHex req).bind (Spec.decode .udp), extra.toNat?, bytesOfHex fill with
+    | some cseq, some sseq, some rm, some extra, some [fb] =>
+      let cl := derive pc
+      let sv := derive ps
+      match protectRequest aes128 cl rm cseq with
+      | none => "setup-fail"
+      | some (pm, cb) =>
+        let target : Option (Msg × Ctx × Option (Bytes × Binding)) :=
+          if which = "q" then some (pm, sv, none) else
+          match deliver sv none (encodeUdp pm), (bytesOfHex resp).bind (Spec.decode .udp) with
+          | some (.ok _ b), some rsp =>
+            (protectResponseFor aes128 sv b (hasObserve rm.opts) rsp (f = "1") sseq (sepMidOf newmid)).map
+              fun p => (p, cl, some (rm.token, cb))
+          | _, _ => none
+        match target with
+        | none => "setup-fail"
+        | some (tm, c, bind) =>
+          let opts' := tm.opts.map fun o => if o.1 = optOscore then (o.1, o.2 ++ List.replicate extra fb) else o
+          let m' := { tm with opts := opts' }
+          let ov := (oscoreValue opts').getD []
+          -- M: `oscore_decode_option_value` on the whole value (the caller hands the length on unchanged)
+          let md := match M.Oscore.decodeOptionValue ov with | .ok _ => "ok" | .rej => "rej" | .oob => "oob"
+          let v := if isRequest m'.code then unprotectRequest aes128 c m'
+                   else unprotectResponse aes128 c (match bind with
+                                                    | some (tok, b) => if tok = m'.token then some b else none
+                                                    | none => none) m'
+          "M len=" ++ toString ov.length ++ " dec=" ++ md ++ " | S len=" ++ toString ov.length ++ " u=" ++ showVerdict v
+    | _, _, _, _, _ => "bad-input"
+  | _, _, _ => "bad-op"
+
+/-! ### `odisp`: protected and plain requests through `coap_dispatch()` on ONE server session (M: Model/OscoreDispatch.lean;
+S: the property — a request that is not protected with the context is rejected without the handler running when the resource
+is OSCORE only) -/
+
+def showDOut : M.Oscore.DOut → String
+  | .nothing => "-"
+  | .protectedResp => "68E"
+  | .clear c => toString c ++ "C"
+
+/-- the Uri-Path of the request is `o` (OSCORE only resource) / `p` -/
+def resourceOnly (m : Msg) : Option Bool :=
+  match m.opts.filter fun o => o.1 = 11 with
+  | [(_, [111])] => some true
+  | [(_, [112])] => some false
+  | _ => none
+
+def odispSteps (cl sv : Ctx) : Nat → M.Oscore.DSess → String → String → List String → String × String
+  | seq, s, m, sp, k :: req :: rest =>
+    match (bytesOfHex req).bind (Spec.decode .udp) with
+    | none => (m ++ " bad-input", sp)
+    | some rm =>
+      match resourceOnly rm with
+      | none => (m ++ " bad-input", sp)
+      | some only =>
+        if k = "o" then
+          match protectRequest aes128 cl rm seq with
+          | none => odispSteps cl sv seq s (m ++ " o:fail") (sp ++ " o:fail") rest
+          | some (pm, _) =>
+            let verified := match unprotectRequest aes128 sv pm with | .ok _ _ => true | _ => false
+            let r := M.Oscore.dispatch 68 s (.osc verified only)
+            odispSteps cl sv (seq + 1) r.sess (m ++ " o:h" ++ (if r.handler then "1" else "0") ++ "," ++ showDOut r.out)
+              (sp ++ " o:h" ++ (if verified then "1" else "0")) rest
+        else
+          let r := M.Oscore.dispatch 68 s (.plain only)
+          -- S / the property: a plain request reaches the handler of a resource that is not OSCORE only, and no other
+          odispSteps cl sv seq r.sess (m ++ " p:h" ++ (if r.handler then "1" else "0") ++ "," ++ showDOut r.out)
+            (sp ++ " p:h" ++ (if only then "0" else "1")) rest
+  | _, _, m, sp, _ => (m, sp)
+
+/-- `odisp <C: 5> <S: 5> <cseq> <sseq> { o <req> | p <req> }*` -/
+def odispStep (w : List String) : String :=
+  match paramsOf (w.take 5), paramsOf ((w.drop 5).take 5), w.drop 10 with
+  | some pc, some ps, cseq :: _sseq :: steps =>
+    match cseq.toNat? with
+    | some cseq =>
+      let (m, s) := odispSteps (derive pc) (derive ps) cseq ⟨false⟩ "" "" steps
+      "M disp" ++ m ++ " | S disp" ++ s
+    | none => "bad-input"
   | _, _, _ => "bad-op"
 
 /-! ### `oscx`: several clients (contexts) behind ONE server session (S: Spec/OscoreCtxSeq.lean, transcript; M:
